@@ -515,4 +515,10 @@ PROPS['C13']['bounded_part'] = 'comparison with a plain triple, replay'
 PROPS['C13']['level_note'] = PROPS['C13']['level_note'].replace(', and other is not self for the binary operations', '') + \
     ' The aliased calls d.union_update(d) / d.intersection_update(d) are proved separately (x op x = x; list lemma fold_self / keep_self in lemmas/Seq.lean).'
 PROPS['C14']['units'] += ['definitions.union_update.aliased', 'definitions.intersection_update.aliased']
+_LINES = ['formats.cxt.iter_cxt_lines', 'formats.cxt.Cxt.dumpf', 'formats.cxt.Cxt.loadf', 'formats.table.dump_file', 'formats.table.load_file',
+          'formats.wiki_table.dump_file']
+PROPS['C12']['units'] += _LINES
+PROPS['C12']['proved_part'] += ('; line/structure level of the text formats (texts opaque): iter_cxt_lines yields exactly the documented line sequence, Cxt.dumpf prints each line once in order, '
+                                'Cxt.loadf slices objects / properties / rows at y and x and decodes the rows; table dump_file (widths, header, one line per object with X/blank cells) and '
+                                'load_file (comment stripping, header, partition per line, transposition); wiki-table dump_file (header, three lines per object, footer)')
 NOT_APPLICABLE = {}
